@@ -223,12 +223,15 @@ def main(argv):
             if m["counters"].get(fl + ":not-applicable", 0) > 0:
                 continue
             reasons.append("floor never reached: %s" % fl)
+    silent_probes = []
     for name in getattr(mod, "PROBE_FLOORS", []):
         short = name
         if short in [a.split(":")[1] for a in m["probe_absent"]]:
             continue  # refactored away: reported as absent, verdict rests on boundary oracles
         if m["probe_events"].get(short, 0) <= 0:
-            reasons.append("probe never fired: %s" % short)
+            # present but never entered: the implementation no longer goes through this inner function (it may survive a refactoring as
+            # dead or compatibility code). The verdict rests on the boundary oracles, whose own floors are checked above; reported, not fatal.
+            silent_probes.append(short)
     nontrivial = len(m["hashes"])
     min_cases = getattr(mod, "MIN_CASES", {"quick": 100, "thorough": 100})[tier]
     if nontrivial < min_cases:
@@ -253,6 +256,7 @@ def main(argv):
         "monitor_counters": dict(sorted(m["counters"].items())),
         "probe_events": m["probe_events"],
         "probe_absent": sorted(m["probe_absent"]),
+        "probe_present_but_never_entered": sorted(silent_probes),
         "anchor_lines": {k: {"hit": v["total"] - len(v["missed"]), "total": v["total"], "missed": sorted(v["missed"])} for k, v in sorted(m["lines"].items())},
         "exceptions_by_raise_site": dict(sorted(m["exceptions"].items())),
         "max_recursion_depth": m["maxdepth"],
@@ -287,6 +291,9 @@ def main(argv):
     for mech, f in sorted(open_mechs.items()):
         if mech not in known_hit:
             print("note: open known finding not reproduced in this run: %s" % mech)
+    if silent_probes or m["probe_absent"]:
+        print("note: inner monitors not exercised on this tree (absent: %s; present but never entered: %s); the verdict rests on the boundary oracles" % (
+            sorted(a.split(":")[1] for a in m["probe_absent"]), sorted(silent_probes)))
     if m["side_effects"]:
         print("note: unexpected side effects observed: %s" % sorted(m["side_effects"]))
     if unlisted:
